@@ -23,7 +23,8 @@ def run_scenarios(ctx: Ctx, own: str, scenarios: List[dict], want_traces: bool =
     verdicts, states, trans = trace_run.validate('Trace_Lookup', traces, common(own), batch=400, par=4)
     def disc(sc: dict, tr: dict, clause: str, pos: int) -> str:
         if clause == 'C13_LookupSpacing':
-            sent = [e for e in tr['events'][:pos] if e['ev'] == 'query']
+            start = max([k for k, e in enumerate(tr['events'][:pos]) if e['ev'] == 'lookup'] or [0])
+            sent = [e for e in tr['events'][start:pos] if e['ev'] == 'query']       # the queries of this lookup
             if len(sent) == 3 and sent[2]['t'] - sent[1]['t'] <= 320 and {q['who'] for q in sent[2]['qs']} != {q['who'] for q in sent[1]['qs']}:
                 return 'third-query-after-host-learned'
             if len(sent) == 3 and sent[2]['t'] - sent[1]['t'] <= 320:
